@@ -491,7 +491,7 @@ def judge_case(ctx, case, R, M, extern=None):
         for si, st in enumerate(case["states"]):
             S, S2 = R["spec"][si], R["spec2"][si]
             Rv = ent["runs"][si]
-            if Rv == "inexact" or S2 == "inexact":
+            if Rv == "inexact" or S2 == "inexact" or not cg.answer_exact(S2):
                 ctx.hist["skipped_inexact"] = ctx.hist.get("skipped_inexact", 0) + 1
                 continue
             if S != S2:
@@ -750,7 +750,7 @@ def run(ctx):
         corpus.append(c)
     tools = ctx.tier == "thorough"
     run_batch(ctx, corpus, tools)
-    n = ctx.n(400, 6000)
+    n = int(os.environ.get("VERIF_N") or ctx.n(400, 4000))
     if not ctx.proof_ok:
         n = max(n, 3000)
         ctx.notes.append("proof side broken: widened search")
